@@ -110,7 +110,9 @@ def run(facts, R):
             for wi, wt in writes:
                 msg = sym.op(wt["args"][1])
                 fs = facts_at(b, sym, facts, wi)
-                notify_path = any(f["val"] is True and f["expr"][0] == "bin" and f["expr"][1] == "Eq" and "notify" in render(f["expr"]) for f in fs)
+                notify_path = any(f["val"] is True and f["expr"][0] == "bin" and f["expr"][1] == "Eq" and "notify" in render(f["expr"]) for f in fs) or \
+                    any(f["expr"][0] == "bin" and "notify" in render(f["expr"][2]) and const_val(f["expr"][3]) == 0 and
+                        ((f["expr"][1] == "Ne" and f["val"] is True) or (f["expr"][1] == "Eq" and f["val"] is False)) for f in fs)       # `notify != 0`
                 if notify_path:
                     R.ok("register-before-write", b.path, "notify write exempt", wt.get("span"), "guarded by header.notify == 1: no response expected", trivial=True)
                     continue
